@@ -16,7 +16,7 @@ replay = _dfs.replay
 PARTS = [("t", 0), ("t", 1), ("u", 0), ("u", 1)]
 MENU = {"refuse": True, "drop": True, "silent": True, "err": {"0": [6, 7], "1": [6], "2": [6], "8": [16], "9": [16]},
         "reorder": True, "timer_early": True, "err_per_partition": True}
-MENU_AGN = {"refuse": True, "drop": True, "silent": True, "err": {"3": [5]}, "reorder": True}
+MENU_AGN = {"refuse": True, "drop": True, "silent": True, "err": {"3": [5]}, "reorder": True, "dnsfail": True}
 
 
 def layouts():
@@ -198,7 +198,7 @@ def agnostic_configs():
 RULE = ("real KafkaClient; clusters: every map of partitions t/0,t/1,u/0,u/1 onto <=3 brokers up to renaming (14 maps), "
         "leaderless variants, coordinator on the last broker; calls: produce/fetch (all maps, every ordering of every "
         "payload subset of size 1-3) and list-offsets/offset-fetch/offset-commit (size 2); deviations: per broker refuse/"
-        "drop/silent/error (so every subset of failing brokers within the fault bound), replies in any cross-broker "
+        "drop/silent/error/name-resolution failure (so every subset of failing brokers within the fault bound), replies in any cross-broker "
         "order, timers overtaking I/O; a connection lost while idle; a broker leaving the cluster and returning under "
         "the same node id between full refreshes; broker-agnostic metadata calls with every subset of brokers down, cold and "
         "warmed-up, every rotation of the shuffle seam.  Oracle: each payload is written to the leader named by the "
